@@ -238,11 +238,11 @@ pub fn judge(ctx: &mut Ctx, b: &[u8], origin: &str) {
                 );
             } else if let Err(r) = &s1 {
                 if r.0.starts_with("cbor:") || r.0.contains("aad cbor") {
-                    // leaf-level strictness of S1 vs dcbor on bytes the library re-encodes identically:
-                    // counted and triaged, never reported (S1 must not demand more than dCBOR does)
+                    // the bytes are not deterministic CBOR (S1's leaf-level rules are dCBOR's: shortest heads,
+                    // shortest floats, numeric reduction, canonical NaN, sorted unique map keys, NFC text, no
+                    // indefinite lengths), yet the library takes them and re-encodes them unchanged
                     ctx.count("s1_leaf_strictness_disagreements");
-                    ctx.notes.push(format!("s1 stricter than dcbor: {} on {}", r.0, hex::encode(&b[..b.len().min(48)])));
-                    ctx.notes.truncate(8);
+                    ctx.violation(&format!("accept-nondeterministic-cbor/{}", class), &format!("decoder accepted {} input that is not deterministic CBOR: {}", origin, r.0), replay());
                 } else {
                     ctx.violation(&format!("accept-malformed/{}", class), &format!("decoder accepted an input the envelope grammar rejects: {}", r.0), replay());
                 }
@@ -384,6 +384,40 @@ pub fn run(ctx: &mut Ctx) {
         let mut rb2 = vec![0xd8, 0xc8];
         rb2.extend_from_slice(&rb);
         judge(ctx, &rb2, "random:tagged");
+        if case % 400 == 0 {
+            // integers spelled as floats (numeric reduction): every width that holds the value exactly
+            for k in 0..64u32 {
+                for v in [1u64 << k, (1u64 << k) + (1u64 << (k.saturating_sub(rng.range(1, 23) as u32))), 3u64 << k.min(61)] {
+                    let f = v as f64;
+                    if (f as u128) != v as u128 {
+                        continue;
+                    }
+                    for neg in [false, true] {
+                        let f = if neg { -f } else { f };
+                        let mut forms: Vec<Vec<u8>> = Vec::new();
+                        let h = half::f16::from_f64(f);
+                        if h.to_f64() == f {
+                            forms.push([vec![0xf9], h.to_bits().to_be_bytes().to_vec()].concat());
+                        }
+                        if ((f as f32) as f64) == f {
+                            forms.push([vec![0xfa], (f as f32).to_bits().to_be_bytes().to_vec()].concat());
+                        }
+                        forms.push([vec![0xfb], f.to_bits().to_be_bytes().to_vec()].concat());
+                        for form in forms {
+                            ctx.count("float_spelled_integers");
+                            let mut b = vec![0xd8, 0xc8, 0xd8, 0xc9];
+                            b.extend_from_slice(&form);
+                            judge(ctx, &b, "quirk:float-spelled-integer");
+                            // and as the object of an assertion
+                            let mut b = vec![0xd8, 0xc8, 0xa1, 0x01];
+                            b.extend_from_slice(&[0xd8, 0xc9]);
+                            b.extend_from_slice(&form);
+                            judge(ctx, &b, "quirk:float-spelled-integer");
+                        }
+                    }
+                }
+            }
+        }
         if case % 50 == 0 {
             // nesting depth 32 (the property's bounded depth): wrapped^32 and node-subject^32
             let mut it = Item::Tag(201, Box::new(Item::UInt(1)));
